@@ -67,6 +67,8 @@ def shifted(f, L, k):
     def m(x):
         return x + k if x >= L else x
     rng = list(f[4])
+    if not rng:        # an empty range is reported as a violation of the per-finding invariants; here it maps to itself
+        return (f[0], f[1], f[2], m(f[3]), (), f[5])
     return (f[0], f[1], f[2], m(f[3]), tuple(range(m(rng[0]), m(rng[-1]) + 1)), f[5])
 
 
@@ -102,6 +104,9 @@ def run(res, ctx):
                 res.case(("inv", pi, r.test_id, r.lineno), True)
                 lr = list(r.linerange)
                 probs = []
+                if not lr:
+                    res.violation("location / excerpt invariant broken", {"program": src, "finding": [r.test_id, r.lineno, lr, r.col_offset], "problems": ["line range is empty"]})
+                    continue
                 if not (1 <= r.lineno <= nlines):
                     probs.append("line outside the file")
                 if r.lineno not in lr:
